@@ -242,6 +242,24 @@ def run(tier, rep):
         if not (np.shape(gs) == np.shape(got[:-1]) and np.array_equal(gs, got[:-1]) and np.shape(es) == np.shape(gerr[1:]) and np.array_equal(es, gerr[1:])):
             rep.violation('symmetric:short', dict(shape=shape, got=[list(np.shape(gs)), list(np.shape(es))]),
                           'symmetric=True on inputs of shape %s returns shapes %s / %s: not the plain result with one element trimmed from each output' % (shape, np.shape(gs), np.shape(es)))
+    # work arrays that are refilled in place between calls (the function has no memory: what counts is what the arrays hold NOW)
+    w0, w1, w2 = np.zeros(6), np.zeros(6), np.zeros(6)
+    for rnd_round in range(4):
+        Ls = np.array([rnd.choice([1.0, -2.0, 7.0, 0.25]) * (j + 1 + rnd_round) for j in range(6)])
+        qs = np.array([rnd.choice([0.5, -0.5, 0.25, 2.0, -3.0, 0.75]) for _ in range(6)])
+        w0[:], w1[:], w2[:] = Ls + 1.0, Ls + qs, Ls + qs * qs
+        try:
+            g_, e_ = dea3(w0, w1, w2)
+            f_, fe_ = dea3(w0.copy(), w1.copy(), w2.copy())
+            gs_, es_ = dea3(w0, w1, w2, symmetric=True)
+        except Exception as ex:
+            rep.violation('raises-array', dict(kind='refilled'), 'dea3 raised %r on work arrays refilled in place' % (ex,))
+            break
+        narr += 1
+        if not (np.array_equal(g_, f_, equal_nan=True) and np.array_equal(e_, fe_, equal_nan=True) and np.array_equal(gs_, f_[:-1], equal_nan=True)):
+            rep.violation('refilled', dict(round=rnd_round, got=np.asarray(g_).tolist(), fresh=np.asarray(f_).tolist()),
+                          'dea3 on work arrays that were refilled in place (round %d) returns %s, on fresh copies of the same numbers %s' % (rnd_round, np.asarray(g_).tolist(), np.asarray(f_).tolist()))
+            break
     # ... and on inputs where EVERY element is converged (constant, tied or zero triples): nothing to extrapolate, same trimming;
     # a smaller third operand broadcasts like any numpy operand
     for shape in [(2,), (4,), (3, 2), (5, 1)]:
